@@ -162,6 +162,7 @@ func TestC17(t *testing.T) {
 		for _, g := range []uint16{0x0019, 0x0018, 0x0017, 0x001d} {
 			if !listed[g] {
 				jobs = append(jobs, job{t: tg, group: g, kind: "unlisted"})
+				jobs = append(jobs, job{t: tg, group: g, kind: "unlisted", cookie: 32}) // invalid selection AND a cookie
 				break
 			}
 		}
@@ -169,6 +170,7 @@ func TestC17(t *testing.T) {
 			for _, g := range []uint16{0x001d, 0x0017, 0x0018, 0x0019} {
 				if shared[g] {
 					jobs = append(jobs, job{t: tg, group: firstValid, kind: "already-shared", alt: g})
+					jobs = append(jobs, job{t: tg, group: firstValid, kind: "already-shared", alt: g, cookie: []int{1, 32, 1000}[len(jobs)%3]})
 				}
 			}
 		}
